@@ -118,6 +118,13 @@ def check(case):
         vb = shared.apply(state, buf).double()
         require(bool(torch.all((vb - vals.double().flip(0)).abs() <= 1e-12 * (1 + vals.double().abs().flip(0)) + 1e-12 * term_mag.flip(0))), f"buffer-refilled-in-place:{key}",
                 f"Sigma{key}.apply on a sample tensor that was refilled in place does not follow the tensor's current contents")
+        # the same configurations handed over as a column-major (non-contiguous) view, e.g. the transpose of a (sites x samples) table:
+        # the logical element order is what counts (seeded change C08w)
+        cm = space.t().contiguous().t()
+        vcm = shared.apply(state, cm).double()
+        require(torch.equal(cm, space), f"mutated(column-major):{key}", f"Sigma{key}.apply modified a column-major sample array")
+        require(tuple(vcm.shape) == (2 ** n,) and bool(torch.all((vcm - vals.double()).abs() <= 1e-12 * (1 + vals.double().abs()) + 1e-12 * term_mag)),
+                f"column-major-samples:{key}", f"Sigma{key}.apply on a column-major view of the same configurations differs from the row-major evaluation")
         # after an exception: the same configurations handed over in another dtype (single precision, integers) - accepted or refused with
         # an exception that the caller catches; the caller then converts the SAME array to double and evaluates again
         for other_dtype in (torch.float32, torch.long):
